@@ -8,6 +8,14 @@ COMMON_NOTE = ("Trusted base: the generator's ground truth (self-checked: plante
                "the reference oracle in harness/oracle, Go toolchain. Decides only the executions produced: 'held on K cases', never 'verified'.")
 
 CHECKS = {
+ "C01": dict(
+   text="Runtime monitoring: generated conventional Java trees with planted declarations (classes/interfaces, generics, arrays, annotated/final parameters, constructors, overloads incl. on one line, abstract/interface methods, class annotations of every argument form, identifier lengths 1-40, hostile layouts; test files by name and directory, .gitignore patterns, non-Java decoys) run through the real identifier pass and full pass (API and `coca analysis`); an exactly-once monitor joins planted and observed type and function entries (package, name, kind, path, superclass, annotations, return type, ordered parameters) and rejects anything undeclared or from excluded files.",
+   technique="generated workloads with planted ground truth + offline exactly-once/conservation monitor over the code model",
+   design="§4 C01"),
+ "C02": dict(
+   text="Runtime monitoring: generated method bodies with planted call sites (all receiver classes, chains, nesting, lambdas, creations; any column; several per line; shadowing and name reuse across methods/files; suffix-colliding imports; same simple name in two packages) run through the real full pass and `coca analysis`; the monitor compares, per function and in source order, recorded calls with planted sites (kind, callee/created type, line and column range of the callee identifier) and the receiver's type and package where the statement's resolution clause applies.",
+   technique="generated workloads with planted call sites + offline sequence-equality monitor (order, position, receiver resolution)",
+   design="§4 C02"),
  "C03": dict(
    text="Runtime monitoring: thousands of generated call-relation models (cycles, self-loops, parallel edges, unresolved callees, quoted names) x roots x lookup/DI/API lists are run through the real CallGraph.Analysis / AnalysisByFiles and the real `coca call` / `coca api -c`; an offline monitor joins the emitted DOT edges with the model's call relation (soundness, root completeness, exactness when the unfolded tree fits 6 expansions, Size = edges+1, observable expansion count) and two independent DOT parsers judge well-formedness. Termination is observed as return / process death per case.",
    technique="generated workloads + offline reference-model monitor over emitted DOT edges (edge soundness/completeness), recover()/process-death crash monitor",
@@ -36,6 +44,14 @@ CHECKS = {
    text="Runtime monitoring: generated source texts (code tokens, string/char/back-tick literals containing comment markers and TODO, line/block/hash comments from a comment grammar: empty, one char, marker only, colon/assignee forms, mixed case, multi-line, TODO-later decoys, unterminated block at EOF) x all 32 subsets of a 5-extension filter run through TodoApp.AnalysisPath and `coca todo`; monitor checks exact multiset equality of (file, start line, assignee, normalised message) with the planted comments and that no shape crashes the scan.",
    technique="generated workloads + offline exactly-once monitor (planted vs reported TODO entries), recover()/process-death crash monitor",
    design="§4 C17"),
+ "C19": dict(
+   text="Runtime monitoring: generated pom.xml (0-15 dependencies, children in any order, comments, properties, dependencyManagement and plugin sections) and build.gradle files (single/double-quoted and parenthesised string notation, several configurations, project(), fileTree(), map notation, surrounding blocks; every script first accepted by coca's own Groovy parser) plus source trees importing chosen groups, run through AnalysisMaven / AnalysisGradleString / DepAnalysisApp.AnalysisPath and the `dep deps` binary; monitor: extracted list equals the declared string-notation dependencies in order (group, artifact, scope/configuration), other notations contribute and disturb nothing, unused report equals the exact sub-list.",
+   technique="generated build files with planted dependencies + offline list-equality monitor, crash monitor",
+   design="§4 C19"),
+ "C20": dict(
+   text="Runtime monitoring: generated Python modules (imports in all forms, decorated classes with methods, decorated functions, nested defs; accepted by coca's own Python parser) and Go files (structs with fields, interfaces, value/pointer-receiver methods after their type, free functions, call statements/defer/assignments/returns; accepted by go/parser) run through PythonIdentApp / GoIdentApp / CocagoParser / CommonAnalysis and the real golang/python mains; monitor: every planted declaration appears exactly once under its own name and owner; no crash.",
+   technique="generated workloads with planted declarations + offline exactly-once / own-owner monitor, crash monitor",
+   design="§4 C20"),
 }
 
 def main():
